@@ -56,6 +56,8 @@ ARGSETS = [
     [("--a", ")(")],                                           # does not compile
     [("--a", "2")],
     [("--a", "[1, 2]")],
+    [("--a", "7"), ("--a", "(1, 2)")],                         # single-valued first, multi-valued later
+    [("-a", "x"), ("--a", "(1, 2, 3)"), ("-a", "z")],
 ]
 OPTSETS = ["".join(c) for k in range(0, 6) for c in itertools.combinations("qscHh", k)]
 
@@ -194,7 +196,8 @@ def run(ctx):
         return {"t": "dwarf", "show": '<Dwarf "%s">' % f}
     invs = [(o, q, fs, a) for o in OPTSETS for (q, fs, a) in configs]
     if quick:
-        invs = rng.sample(invs, 2500)
+        # every (query, files, arguments) configuration under two random option sets
+        invs = [(o, q, fs, a) for (q, fs, a) in configs for o in rng.sample(OPTSETS, 2)]
     mlines = []
     for o, q, fs, a in invs:
         vals = [argvals[arg_expr(f, t)] for f, t in ARGSETS[a]]
@@ -328,7 +331,7 @@ def run(ctx):
     ctx.cov.update({
         "evaluations": evaluations,
         "distinct_nontrivial": len(invs),
-        "rule": "option subsets of {-q,-s,-c,-H,-h} (all 32) x %d queries (0/1/many results, multi-value stacks, compile errors, exceptions after 0 and 2 results, an exception for one combination only, library diagnostics) x %d file lists (none, valid, unreadable, non-ELF, repeated) x %d -a/--a lists (0-3 values each, a value-less one, one that does not compile); %s of the %d invocations; each compared on stdout, driver lines of stderr and exit status with the extracted model fed by the library driver's per-combination results; a sample re-run in 6 equivalent spellings" % (len(QUERIES), len(FILESETS), len(ARGSETS), "a random %d" % len(invs) if quick else "all", len(OPTSETS) * len(configs)),
+        "rule": "option subsets of {-q,-s,-c,-H,-h} (all 32) x %d queries (0/1/many results, multi-value stacks, compile errors, exceptions after 0 and 2 results, an exception for one combination only, library diagnostics) x %d file lists (none, valid, unreadable, non-ELF, repeated) x %d -a/--a lists (0-3 values each, a value-less one, one that does not compile); %s of the %d invocations; each compared on stdout, driver lines of stderr and exit status with the extracted model fed by the library driver's per-combination results; a sample re-run in 6 equivalent spellings" % (len(QUERIES), len(FILESETS), len(ARGSETS), "%d (every query/files/arguments configuration under two random option sets)" % len(invs) if quick else "all", len(OPTSETS) * len(configs)),
         "samples": [argv_for(*invs[0]), argv_for(*invs[len(invs) // 2])],
         "status_histogram": hist,
         "traces_validated_against_impl": evaluations,
